@@ -14,12 +14,14 @@ def cfgs_for(family, tier):
         d = dict(base); d.update(save_threshold=thr, segment_bytes=seg * MSG); d.update(kw); return d
     if family in ('layout', 'layout_enc', 'dedup', 'offsets', 'grpoffsets'):
         m = [c(1000, 0), c(2, 0), c(1, 2), c(3, 4, cache_indexes=False), c(2, 3, cache='large'),
-             c(1000, 2, fsync=True), c(1, 0, cache='large', cache_indexes=False), c(3, 2)]
+             c(1000, 2, fsync=True), c(1, 0, cache='large', cache_indexes=False), c(3, 2),
+             # a cache of a few messages: System::append_messages evicts while the scenario runs
+             c(1, 0, cache='tiny'), c(3, 4, cache='tiny'), c(1000, 0, cache='tiny')]
         if tier == 'thorough':
             m += [c(1, 3, cache_indexes=False), c(2, 4, cache='large'), c(1000, 3, cache='large'),
                   c(1, 1), c(4, 5, fsync=True, cache_indexes=False), c(2, 2, cache='large', cache_indexes=False)]
     elif family == 'retention':
-        m = [c(1, 2), c(1000, 2), c(2, 3, cache_indexes=False), c(1, 1), c(3, 2, cache='large')]
+        m = [c(1, 2), c(1000, 2), c(2, 3, cache_indexes=False), c(1, 1), c(3, 2, cache='large'), c(2, 2, cache='tiny')]
         if tier == 'thorough':
             m += [c(1, 3), c(2, 2, fsync=True), c(1000, 3, cache='large'), c(1, 2, cache_indexes=False)]
     else:
@@ -211,7 +213,7 @@ def shard(scenarios, nshards):
 # which labels belong to which property (X.* = server died / request failed: every property of the lens reports it)
 LABELS = {
     'C01': ('C01.',),
-    'C02': ('C02.',),
+    'C02': ('C02.', 'C07.next'),   # 'next' is one of C02's slices ("the n following the consumer's stored offset")
     'C03': ('C03.',),
     'C07': ('C07.',),
     'C14': ('C14.',),
